@@ -99,9 +99,9 @@ func (d *D) Of(v ssa.Value) string {
 		}
 		return "&" + allocName(x)
 	case *ssa.FieldAddr:
-		return d.path(x.X) + "." + fieldNameOf(x.X.Type(), x.Field)
+		return projectField(d.path(x.X), fieldNameOf(x.X.Type(), x.Field))
 	case *ssa.Field:
-		return d.Of(x.X) + "." + fieldNameOf(x.X.Type(), x.Field)
+		return projectField(d.Of(x.X), fieldNameOf(x.X.Type(), x.Field))
 	case *ssa.IndexAddr:
 		return d.path(x.X) + "[" + d.Of(x.Index) + "]"
 	case *ssa.Index:
@@ -780,6 +780,7 @@ var refParamsJSON []byte
 
 type refEntry struct {
 	Params  []string `json:"params"`
+	Results int      `json:"results"`
 	Callees []string `json:"callees"`
 }
 
@@ -801,6 +802,15 @@ func IsNewFunc(fn *ssa.Function) bool {
 	}
 	_, ok := refProg[fn.String()]
 	return !ok
+}
+
+// SignatureChanged reports whether fn exists on the reference tree with a
+// different number of parameters (rules written against its parameters cannot
+// be evaluated).
+func SignatureChanged(fn *ssa.Function) bool {
+	loadRef()
+	e, ok := refProg[fn.String()]
+	return ok && (len(e.Params) != len(fn.Params) || e.Results != fn.Signature.Results().Len())
 }
 
 // RefCallees returns the module callees fn had on the reference tree.
@@ -947,4 +957,88 @@ func (d *D) foldConv(src ssa.Value, to types.Type) (string, bool) {
 		return n, true
 	}
 	return constStr(folded), true
+}
+
+// projectField renders base.field; when base is itself a rendered struct
+// literal T{f1:v1,f2:v2} (a small carrier struct built by a helper that was
+// walked through), the field's value is taken out of the literal.
+func projectField(base, field string) string {
+	if strings.HasSuffix(base, "}") {
+		if open := topLevelOpenBrace(base); open > 0 {
+			body := base[open+1 : len(base)-1]
+			depth, start := 0, 0
+			inStr := false
+			for i := 0; i <= len(body); i++ {
+				if i < len(body) {
+					c := body[i]
+					if inStr {
+						if c == '\\' {
+							i++
+						} else if c == '"' {
+							inStr = false
+						}
+						continue
+					}
+					switch c {
+					case '"':
+						inStr = true
+						continue
+					case '(', '[', '{':
+						depth++
+						continue
+					case ')', ']', '}':
+						depth--
+						continue
+					}
+					if c != ',' || depth != 0 {
+						continue
+					}
+				}
+				item := body[start:i]
+				start = i + 1
+				if strings.HasPrefix(item, field+":") {
+					return item[len(field)+1:]
+				}
+			}
+		}
+	}
+	return base + "." + field
+}
+
+// topLevelOpenBrace: for "pkg.T{...}" with balanced braces ending at the last
+// character, the index of the brace that opens the literal (the type part has
+// no brackets); -1 otherwise.
+func topLevelOpenBrace(s string) int {
+	i := strings.IndexByte(s, '{')
+	if i <= 0 || strings.ContainsAny(s[:i], "([ ") {
+		return -1
+	}
+	depth := 0
+	inStr := false
+	for j := i; j < len(s); j++ {
+		c := s[j]
+		if inStr {
+			if c == '\\' {
+				j++
+			} else if c == '"' {
+				inStr = false
+			}
+			continue
+		}
+		switch c {
+		case '"':
+			inStr = true
+		case '{', '(', '[':
+			depth++
+		case '}', ')', ']':
+			depth--
+			if depth == 0 && j != len(s)-1 {
+				return -1
+			}
+		}
+	}
+	if depth != 0 {
+		return -1
+	}
+	return i
 }
